@@ -6,6 +6,7 @@
 //! schedule points) so that a harness can run the unmodified runtime fully
 //! serialised under a virtual clock. Without installed hooks everything falls
 //! back to the real implementation.
+pub use crate::coroutine_impl::verif_current_id as current_co_id;
 pub use may_queue::verif::*;
 
 use std::time::Duration;
